@@ -8,6 +8,7 @@
    Side conditions [wf_*] only say that a piece does not contain the separator that ends it. *)
 From GS Require Import Base.Bytes Model.Lexer Model.LexGrammar.
 From GS Require Import Proofs.Lexer Proofs.LexerGrammar Proofs.LexerGrammarEvent Proofs.LexerGrammarWf.
+From GS Require Import Proofs.LexerGrammarExact Proofs.LexerGrammarExactEvent.
 Local Open Scope N_scope.
 
 (* Every metric line of the grammar, with the attribute fields in any order and multiplicity,
@@ -136,3 +137,88 @@ Theorem C02_normalise_spec :
   (forall a b, normalise (a ++ b) = normalise a ++ normalise b).
 Proof. exact normalise_spec. Qed.
 Print Assumptions C02_normalise_spec.
+
+(* ---------------------------------------------------------------------------------------- *)
+(* EXACTLY the grammar.  [render_metric'] / [render_event'] are the same renderings under the
+   weaker side conditions [wf_attrs'] / [wf_eattrs'] (Model/LexGrammar.v), which add precisely
+   the slack the lexer has: an ignored field is recognised by its first byte only, so it may
+   be EMPTY, in which case that first byte is the next '|' and the field after it is skipped
+   ([AOther (c_pipe :: g)]), or it is the empty field after a trailing '|' ([AOther []], last
+   position only); and a date numeral is accumulated in uint64 with lexUint's overflow test
+   ([uint_acc]). *)
+
+(* Every accepted metric line without NUL is a rendering of the grammar -- the derivation is
+   the one [parse_to_spec] computes -- and the record returned is the one the grammar promises
+   for that derivation. *)
+Theorem C02_accepted_only_grammar :
+  forall (pf : str -> pfres) (ns l : str) (m : metric),
+    ~ In c_nul l -> lex pf ns l = OMetric m ->
+    exists raw val ty attrs,
+      parse_to_spec l = Some (SMetric raw val ty attrs) /\
+      wf_raw_name raw /\ wf_value val /\ wf_attrs' attrs /\
+      l = render_metric' raw val ty attrs /\
+      expected_metric pf ns raw val ty attrs = OMetric m.
+Proof. exact accepted_only_grammar. Qed.
+Print Assumptions C02_accepted_only_grammar.
+
+Theorem C02_accepted_event_only_grammar :
+  forall (pf : str -> pfres) (ns l : str) (e : event),
+    ~ In c_nul l -> lex pf ns l = OEvent e ->
+    exists dt dx title text attrs,
+      parse_to_spec l = Some (SEvent dt dx title text attrs) /\
+      wf_event_header dt dx title text /\ wf_eattrs' attrs /\
+      l = render_event' dt dx title text attrs /\
+      e = expected_event' title text attrs.
+Proof. exact accepted_event_only_grammar. Qed.
+Print Assumptions C02_accepted_event_only_grammar.
+
+(* {accepted lines without NUL} = {render_metric' ..} U {render_event' ..}, with the results. *)
+Theorem C02_language :
+  forall (pf : str -> pfres) (ns l : str), ~ In c_nul l ->
+    (forall m, lex pf ns l = OMetric m <->
+       exists raw val ty attrs, wf_raw_name raw /\ wf_value val /\ wf_attrs' attrs /\
+         l = render_metric' raw val ty attrs /\ expected_metric pf ns raw val ty attrs = OMetric m) /\
+    (forall e, lex pf ns l = OEvent e <->
+       exists dt dx title text attrs, wf_event_header dt dx title text /\ wf_eattrs' attrs /\
+         l = render_event' dt dx title text attrs /\ e = expected_event' title text attrs).
+Proof. exact language. Qed.
+Print Assumptions C02_language.
+
+(* The documented grammar is a sub-grammar of the exact one: same rendering, same results. *)
+Theorem C02_documented_subgrammar :
+  (forall attrs, Forall wf_attr attrs -> wf_attrs' attrs) /\
+  (forall attrs, Forall wf_eattr attrs ->
+     wf_eattrs' attrs /\ forall e, fold_left apply_eattr' attrs e = fold_left apply_eattr attrs e) /\
+  (forall raw val ty attrs, render_metric' raw val ty attrs = render_metric raw val ty attrs) /\
+  (forall dt dx title text attrs, render_event' dt dx title text attrs = render_event_digits dt dx title text attrs).
+Proof. exact documented_subgrammar. Qed.
+Print Assumptions C02_documented_subgrammar.
+
+(* parse_to_spec (used by the correspondence on every accepted real line): whatever it returns
+   renders back to the line; it is defined on every accepted line without NUL. *)
+Theorem C02_parse_to_spec :
+  (forall l s, parse_to_spec l = Some s -> render_spec s = l) /\
+  (forall (pf : str -> pfres) (ns l : str), ~ In c_nul l ->
+     (exists m, lex pf ns l = OMetric m) \/ (exists e, lex pf ns l = OEvent e) ->
+     parse_to_spec l <> None).
+Proof. exact parse_to_spec_correct. Qed.
+Print Assumptions C02_parse_to_spec.
+
+(* What "exactly" means for the real code: an empty field swallows the next one (metrics and
+   events); a trailing '|' is harmless; the two event lengths never wrap; a date numeral can
+   wrap modulo 2^64 undetected (d:21000000000000000000 is the date 2553255926290448384). *)
+Theorem C02_quirks :
+  forall (pf : str -> pfres) (ns : str),
+  (forall raw val ty g attrs, wf_raw_name raw -> wf_value val -> ~ In c_pipe g -> wf_attrs' attrs ->
+     lex pf ns (render_metric' raw val ty (AOther (c_pipe :: g) :: attrs)) =
+     lex pf ns (render_metric' raw val ty attrs)) /\
+  (forall raw val ty attrs, wf_raw_name raw -> wf_value val -> Forall wf_attr attrs ->
+     lex pf ns (render_metric raw val ty attrs ++ [c_pipe]) = lex pf ns (render_metric raw val ty attrs)) /\
+  (forall dt dx title text g attrs, wf_event_header dt dx title text -> ~ In c_pipe g -> wf_eattrs' attrs ->
+     lex pf ns (render_event' dt dx title text (EAOther (c_pipe :: g) :: attrs)) =
+     lex pf ns (render_event' dt dx title text attrs)) /\
+  (forall ds v, Forall (fun b => is_digit b = true) ds -> uint_acc 0 ds = Some v -> v <= max_uint32 ->
+     v = digit_value ds) /\
+  (exists ds, two64 <= digit_value ds /\ wf_eattr' true (EADate ds) /\ date_value ds = digit_value ds - two64).
+Proof. exact quirks. Qed.
+Print Assumptions C02_quirks.
